@@ -43,7 +43,23 @@ EXPLANATION = (
     "holds an unannotated parameter raw must carry type(param) or be in the "
     "triaged table.  R14.8 is a necessary condition (it does not prove the "
     "key injective: e.g. a frozenset of element types that loses the "
-    "value/type pairing would pass).  These decide the "
+    "value/type pairing would pass).  R14.21 (rules/c14_special_lookup.py) "
+    "*evaluates* the path condition under which attribute.py calls a class's "
+    "__getattr__/__getattribute__ (_get_attribute -> _get_attribute_computed, "
+    "inlining pure helper predicates such as _computable and the tables they "
+    "consult, e.g. slots.SYMBOL_MAPPING built by a comprehension over "
+    "slots.SLOTS) for every special-method name - every python_name of "
+    "slots.SLOTS plus every slot-wrapper name of the host CPython's builtin "
+    "types - and requires the compute call to be unreachable for each: "
+    "CPython looks special methods up on the type, so a catch-all "
+    "__getattr__ must not make `proxy()` or `1 + proxy` look supported.  "
+    "R14.21 blind spots: a refusal that consults per-object state "
+    "(`name in self._table`) is an ANALYSIS-ERROR, not decided; tests that "
+    "do not depend on the name are assumed satisfiable; special methods that "
+    "are neither in slots.SLOTS nor slot wrappers (__enter__, __exit__, "
+    "__round__, __fspath__ ...) are not required although CPython also looks "
+    "them up on the type; whether the VM's implicit lookups go through "
+    "get_attribute at all is not re-derived.  These decide the "
     "property for ground builtin operands up to the fidelity of the admission "
     "model (calibrated against the real matcher at design time: 2542/2548 "
     "cases); user classes, method-call arguments and overload resolution in "
@@ -59,6 +75,12 @@ ASSUMPTIONS = [
     "{(1, 2)} into nested tuple / frozenset constants), so a one-level "
     "element-type key is not enough; writers of Converter._convert_cache in "
     "other modules (named_tuple.py) are not checked for key-shape agreement",
+    "R14.21: rules/_peval.py is a three-valued interpreter for pure "
+    "predicates (constants, str methods, comparisons, comprehensions over "
+    "dataclass tables, helper calls); methods that read object state are "
+    "inlined one level and otherwise unknown; the special-method reference "
+    "set is slots.SLOTS (non-Python-2 rows) united with the wrapper_descriptor "
+    "names of the host interpreter's builtin types",
 ]
 
 VM = "pytype/vm.py"
